@@ -788,6 +788,19 @@ impl W3Exec {
         for o in &post_b {
             self.stats.state_digests.push(o.state_digest());
         }
+        // volume budget: what bounds the per-side resting volume and the per-step traded volume (< 2^32, the valid
+        // histories) is the volume still outstanding, not the volume ever submitted: completed orders release theirs, so
+        // that the traded volume accumulated over the steps of a run may well exceed 2^32
+        for a in 0..cfg.assets {
+            let out: u64 = post_b[a].orders.iter().filter(|o| o.status == NEW || o.status == ACTIVE).map(|o| o.vol as u64).sum();
+            if out < self.budget[a] {
+                self.budget[a] = out;
+            }
+            let tv: u64 = post_b[a].trades.iter().map(|t| t.vol as u64).sum();
+            if tv > PMAX as u64 {
+                self.stats.probe("run_traded_volume_over_2_32");
+            }
+        }
         self.prev = post;
         Ok(())
     }
